@@ -97,9 +97,9 @@ func floatToJSON(f float64) json.Number {
 }
 
 func intToJSON(i int64) json.Number {
-	return json.Number(strconv.Itoa(int(i)))
+	return json.Number(strconv.FormatInt(i, 10))
 }
 
 func uintToJSON(i uint64) json.Number {
-	return json.Number(strconv.Itoa(int(i)))
+	return json.Number(strconv.FormatUint(i, 10))
 }
